@@ -8,3 +8,5 @@ mkdir -p /root/scratch && rsync -a --exclude .git /repo/ "$M"/ || exit 3
 ( cd "$M" && patch -p1 -s < "$P" ) || { echo "patch does not apply"; rm -rf "$M"; exit 3; }
 cd /verif && VERIF_REPO="$M" PYTHONPATH="$M" timeout 3000 ./check "$ID" --tier "$TIER" "$@" 2>&1 | grep -v "^WARN\|chttp2" | tail -6
 rm -rf "$M"
+# translators regenerated lean/OptunaVerif/Generated from the mutated copy: put the pristine files back
+git -C /verif checkout -- lean/OptunaVerif/Generated 2>/dev/null
